@@ -4,6 +4,7 @@ package interp
 // of workers (each an independent interpreter + solver process).
 
 import (
+	"math/big"
 	"encoding/json"
 	"fmt"
 	"go/token"
@@ -120,6 +121,9 @@ type Options struct {
 	Verbose    bool
 	GoMode     string
 	Clock      string
+	Preempt    int
+	Timers     int
+	AtomicPoints bool
 	Budget     time.Duration
 	Model      map[string]string // concrete re-execution of one model
 }
@@ -253,6 +257,14 @@ func worker(p *Program, fn *ssa.Function, opt Options, sh *sharedRun) {
 				np[k] = choice{kind: 'b', taken: !c.taken, where: c.where}
 				sh.queue = append(sh.queue, np)
 			}
+			if c.kind == 'n' && c.altOpen {
+				for v := 1; v < c.n; v++ {
+					np := make([]choice, k+1)
+					copy(np, trace[:k])
+					np[k] = choice{kind: 'n', val: big.NewInt(int64(v)), n: c.n, where: c.where}
+					sh.queue = append(sh.queue, np)
+				}
+			}
 		}
 		sh.mu.Unlock()
 		sh.cond.Broadcast()
@@ -263,6 +275,9 @@ func worker(p *Program, fn *ssa.Function, opt Options, sh *sharedRun) {
 func runPath(i *interpreter, fn *ssa.Function, prefix []choice, opt Options, sh *sharedRun) (trace []choice, instrs int64, sample string) {
 	i.h = &harnessRun{shared: sh, goMode: opt.GoMode, clock: opt.Clock, concreteModel: opt.Model, reached: map[string]bool{}, witness: map[string]map[string]string{}, assertSeen: map[string]int{}, logw: os.Stderr}
 	i.newPath(prefix)
+	i.schedInit(opt.GoMode == "sched", opt.Preempt, opt.Timers)
+	i.sched.atomicPoints = opt.AtomicPoints
+	defer i.schedTeardown()
 	i.stack = i.stack[:0]
 	i.panicDepth, i.panicStack = 0, ""
 	outcome := "ok"
@@ -358,6 +373,16 @@ func runPath(i *interpreter, fn *ssa.Function, prefix []choice, opt Options, sh 
 				sb.WriteByte('0')
 			}
 		}
+		if c.kind == 'n' {
+			if c.val.Sign() == 0 {
+				sb.WriteByte('.')
+			} else {
+				sb.WriteString("[" + c.val.String() + "]")
+			}
+		}
+	}
+	if i.verbose {
+		fmt.Fprintf(os.Stderr, "trace %s\n", sb.String())
 	}
 	return i.path.trace, i.path.instrs, fmt.Sprintf("decisions=%s outcome=%s", sb.String(), outcome)
 }
